@@ -15,6 +15,7 @@ type Program struct {
 	Files   map[string][]byte // user sources (types.go) - gombok input
 	Harness map[string][]byte // harness files added after generation
 	Desc    string
+	NoGombok bool // support package: written as is, the generator is not run on it
 }
 
 type fieldKind int
